@@ -11,10 +11,10 @@ use crate::data_types::w3c::credential_attributes::CredentialAttributeValue;
 use crate::data_types::w3c::presentation::W3CPresentation;
 use crate::data_types::w3c::proof::CredentialPresentationProofValue;
 use crate::error::Result;
-use crate::services::helpers::{encode_credential_attribute, get_requested_non_revoked_interval};
+use crate::services::helpers::encode_credential_attribute;
 use crate::types::{PresentationRequest, RevocationRegistryDefinition, RevocationStatusList};
 use crate::utils::query::Query;
-use crate::verifier::{gather_filter_info, process_operator};
+use crate::verifier::{check_non_revoked_interval, gather_filter_info, process_operator};
 use crate::verifier::{verify_revealed_attribute_value, CLProofVerifier};
 use anoncreds_clsignatures::{Proof, SubProof};
 use std::collections::HashMap;
@@ -127,28 +127,28 @@ fn check_credential_restrictions(
 
 fn check_credential_non_revoked_interval(
     presentation_request: &PresentationRequestPayload,
+    cred_defs: &HashMap<CredentialDefinitionId, CredentialDefinition>,
     nonrevoke_interval: Option<&NonRevokedInterval>,
     nonrevoke_interval_override: Option<
         &HashMap<RevocationRegistryDefinitionId, HashMap<u64, u64>>,
     >,
     proof: &CredentialPresentationProofValue,
 ) -> Result<()> {
-    if let Some(ref rev_reg_id) = proof.rev_reg_id {
-        let non_revoked_interval = get_requested_non_revoked_interval(
-            Some(rev_reg_id),
-            nonrevoke_interval,
-            presentation_request.non_revoked.as_ref(),
-            nonrevoke_interval_override,
-        );
-
-        if let Some(non_revoked_interval) = non_revoked_interval {
-            let timestamp = proof
-                .timestamp
-                .ok_or_else(|| err_msg!("Credential timestamp not found for revocation check"))?;
-            non_revoked_interval.is_valid(timestamp)?;
-        }
-    }
-    Ok(())
+    let cred_def = cred_defs.get(&proof.cred_def_id).ok_or_else(|| {
+        err_msg!(
+            "Credential Definition not provided for ID: {:?}",
+            proof.cred_def_id
+        )
+    })?;
+    check_non_revoked_interval(
+        cred_def,
+        nonrevoke_interval.cloned(),
+        None,
+        presentation_request,
+        proof.rev_reg_id.as_ref(),
+        nonrevoke_interval_override,
+        proof.timestamp,
+    )
 }
 
 #[allow(clippy::too_many_arguments)]
@@ -167,6 +167,7 @@ fn check_credential_conditions(
     check_credential_restrictions(credential, restrictions, schemas, cred_defs, proof)?;
     check_credential_non_revoked_interval(
         presentation_request,
+        cred_defs,
         nonrevoke_interval,
         nonrevoke_interval_override,
         proof,
